@@ -38,7 +38,7 @@ fn child() {
         "daily" => Rotation::DAILY,
         _ => Rotation::NEVER,
     };
-    let mut bld = RollingFileAppender::builder().rotation(rot);
+    let mut bld = RollingFileAppender::builder().rotation(rot.clone());
     if let Some(p) = b["prefix"].as_str() {
         bld = bld.filename_prefix(p);
     }
@@ -50,10 +50,23 @@ fn child() {
             bld = bld.max_log_files(n as usize);
         }
     }
-    let mut app = match bld.build(&dir) {
+    // the other constructors (prefix only): RollingFileAppender::new and the helpers minutely / hourly / daily / never
+    let ctor = b["ctor"].as_str().unwrap_or("builder");
+    let built = match (ctor, b["prefix"].as_str()) {
+        ("new", Some(p)) => vh_common::catch(|| RollingFileAppender::new(rot.clone(), &dir, p)).map_err(|e| e.to_string()),
+        ("helper", Some(p)) => vh_common::catch(|| match b["kind"].as_str().unwrap() {
+            "minutely" => tracing_appender::rolling::minutely(&dir, p),
+            "hourly" => tracing_appender::rolling::hourly(&dir, p),
+            "daily" => tracing_appender::rolling::daily(&dir, p),
+            _ => tracing_appender::rolling::never(&dir, p),
+        })
+        .map_err(|e| e.to_string()),
+        _ => bld.build(&dir).map_err(|e| e.to_string()),
+    };
+    let mut app = match built {
         Ok(a) => a,
         Err(e) => {
-            runner::child_emit(json!({"ev": "init", "error": e.to_string()}));
+            runner::child_emit(json!({"ev": "init", "error": e}));
             return;
         }
     };
